@@ -28,16 +28,41 @@ def oracle_listen(case, impl):
         return "a listener failed to bind but the returned error is of class '%s'" % m.group(2)
     return None
 
+def oracle_svcstart(case, impl):
+    """C16 direct check on the real (*proxySvc).Start: success is reported (and hooks run) only when every listener serves."""
+    f = case.split(" ")
+    kind = f[1]
+    m = re.match(r"result=(\w+) hooks=(\d+) bound=(\S+)", impl)
+    if not m:
+        return "unexpected harness output " + impl[:80]
+    res, hooks, bound = m.group(1), int(m.group(2)), m.group(3)
+    if kind != "ok" and res == "started":
+        return "Start returned nil although a listener could not be bound (%s): the failed start is treated as successful" % kind
+    if kind != "ok" and hooks > 0:
+        return "the OnStarted hooks ran although a listener could not be bound (%s)" % kind
+    if res == "started" and bound != "all":
+        return "Start returned nil but the listen addresses are not all serving (%s)" % bound
+    if res == "started" and hooks != 1:
+        return "Start returned nil and the OnStarted hook ran %d times" % hooks
+    if res == "error" and bound != "none":
+        return "Start failed but left listeners bound (%s)" % bound
+    if kind == "ok" and res != "started":
+        return "every address was free but Start did not succeed (%s)" % res
+    if kind == "inuse" and res != "error":
+        return "an address was in use but Start did not report the error (%s)" % res
+    return None
+
 SPEC = dict(
     lean_module="NV.Props.C16",
-    areas=[dict(name="listen", n_quick=150, n_thorough=2400, shards_thorough=8, oracle=oracle_listen, timeout=900)],
+    areas=[dict(name="listen", n_quick=150, n_thorough=2400, shards_thorough=8, oracle=oracle_listen, timeout=900),
+           dict(name="svcstart", binary="main.test", n_quick=3, n_thorough=9, shards_thorough=1, oracle=oracle_svcstart, timeout=300)],
     level_text="The start-up/shutdown protocol of ListenAndServe is modelled as a small-step system with ANY number of listener threads; "
                "kernel-checked invariants over all interleavings give: no bound socket at return, the bind error is the one returned "
                "(no external stop), no deadlock after cancellation and a strictly decreasing rank (termination). The pre-repair protocol "
                "is shown to leak by a concrete schedule. The real ListenAndServe is run on 1-4 addresses (v4/v6) with every kind of "
                "bind failure / stop timing and must agree with the model on (returned, error class, addresses free again).",
     level_note="Partial for the schedule quantifier on the implementation side: the Go scheduler is sampled (60-1200 runs), the model "
-               "covers all interleavings. proxySvc.start's 5-second wait (run.go) is outside the model. Trusted: net.ListenConfig, "
+               "covers all interleavings. (*proxySvc).Start's retry loop is modelled (NV.SvcStart) and its CFG certificate regenerated; proxySvc.start's 5-second wait is real time in the svcstart area and an abstract 'attempt' in the model. Trusted: net.ListenConfig, "
                "mutex and channel semantics, context cancellation.",
     trusted=COMMON_TRUST + ["Go context/channel/mutex semantics", "kernel: closing a socket wakes its blocked reader/acceptor"],
     assumptions=["the hand model's atomic steps correspond to the critical sections and channel operations of proxy.go (reviewed by hand; "
